@@ -90,6 +90,7 @@ def run_case(case):
             raise Violation("C05.frozen", f"value of {hev.name} changed after delivery (was {names})", "C05.frozen")
     classes = set()
     conds = [x for x in h.hevs.values() if x.kind == "C" and x.tree is not None]
+    by_step = {o.proc_step: o for o in h.occs if o.proc_step is not None}
     for c in conds:
         if not c.tree[1]:
             classes.add("empty list")
@@ -102,6 +103,14 @@ def run_case(case):
                 if k.expect and k.expect[0] == "exc" and k.occ is not None and k.occ.proc_step is not None \
                         and k.occ.proc_step > c.occ.trig_step:
                     classes.add("operand fails after trigger")
+        # a condition is triggered while it is being built (already decided) or in the step that processes one of its own
+        # operands - never by the processing of anything else (e.g. a leaf further down, bypassing a nested condition)
+        if c.occ is not None and c.occ.trig_step != c.build_step:
+            src = by_step.get(c.occ.trig_step)
+            if src is not None and all(src.hev is not k for k in c.tree[1]):
+                raise Violation("C05.instant", f"{c.name} was triggered in the step that processed "
+                                               f"{src.hev.name if src.hev else src.kind}, which is none of its operands "
+                                               f"{[k.name for k in c.tree[1]]}", "C05.instant/foreign-trigger")
         # a decided condition must have been triggered; an undecided one must not
         dec = kdsl.eval_cond(c) if res.ended == "exhausted" else None
         if res.ended == "exhausted":
